@@ -187,6 +187,8 @@ def _run(ctx, pq):
         ctx.count("P.pair", pc["pair"])
         for v in res.get("vias", []):
             ctx.count("P.via", v)
+    # ---- the same class through the reusable module: twin datasets against a fresh interpreter
+    TW.run(ctx, "harness.props.C14", [dict(TW.gen_partition_case(rng, i), scheme="hive") for i in range(10 if quick else 40)], stream="P.twins")
     for case, res in zip(cases, results):
         ctx.case(case, trivial=(len(case["files"]) == 1 and case["root_mode"] == "inferred"))
         ctx.count("B.shape", case["shape"])
@@ -872,6 +874,46 @@ def check_pair(case, root, pq, ctx=None, verbose=False):
     return {"problems": problems, "trivial": False, "vias": vias}
 
 
+# -------------------------------------------------------------------------------------------------- twins (harness/twins.py)
+# the generalisation of stream P: the same colliding pairs, every way of opening them, each answer against a FRESH interpreter that has
+# seen only that dataset (stream P compares with the values written; the twins catch state shared across datasets whatever it corrupts)
+def _tw_nometa(root, case, which):
+    from fastparquet import ParquetFile
+    for junk in ("_metadata", "_common_metadata"):
+        try:
+            os.unlink(os.path.join(root, junk))
+        except OSError:
+            pass
+    return L.twin_partition_answer(ParquetFile(root), case)
+
+
+def _tw_merge(root, case, which):
+    from fastparquet import ParquetFile, writer
+    writer.merge(L.twin_files(root), root=root)
+    return L.twin_partition_answer(ParquetFile(root), case)
+
+
+def _tw_open(how):
+    def op(root, case, which):
+        from fastparquet import ParquetFile
+        files = L.twin_files(root)
+        if how == "directory":
+            return L.twin_partition_answer(ParquetFile(root), case)
+        if how == "list-of-2":
+            return L.twin_partition_answer(ParquetFile(files[:2], root=root), case)
+        if how == "instances":
+            return L.twin_partition_answer(ParquetFile([ParquetFile(f) for f in files], root=root), case)
+        return L.twin_partition_answer(ParquetFile(files, root=root), case)
+    return op
+
+
+from harness import twins as TW       # noqa: E402
+twin_build = TW.partition_twins
+TWIN_OPS = {"directory": _tw_open("directory"), "list-of-2": _tw_open("list-of-2"), "list-all": _tw_open("list-all"),
+            "instances": _tw_open("instances"), "directory-without-summary": _tw_nometa, "merge": _tw_merge,
+            "directory-again": _tw_open("directory")}
+
+
 def _replayable(case):
     return {k: case.get(k) for k in ("shape", "files", "root_mode", "cat_mode", "verify", "bad_schema", "dup", "relative", "junk", "dir_slash", "colperm", "colperm_seed")}
 
@@ -895,6 +937,8 @@ def replay(rep):
             return 1 if bad else 0
         finally:
             shutil.rmtree(tmp, ignore_errors=True)
+    if "twins" in case:
+        return TW.replay(case)
     if "pair_case" in case:
         tmp = tempfile.mkdtemp(prefix="verif-C14-replay-", dir="/tmp")
         try:
